@@ -3874,8 +3874,8 @@ func (t *translator) extract(g *fn) {
 		if !ok {
 			failf("extract: %s of \"order\" is not in \"vars\"", name)
 		}
-		ps = append(ps, "("+name+" : "+t.leanType(tp)+")")
-		ft.used[name] = true
+		ps = append(ps, "("+kwName(name)+" : "+t.leanType(tp)+")")
+		ft.used[kwName(name)] = true
 	}
 	if len(ex.Order) != len(ex.Vars) {
 		failf("extract: \"order\" must list every variable of \"vars\" once")
@@ -3894,8 +3894,8 @@ func (t *translator) extract(g *fn) {
 					}
 					x.Obj = byName[x.Name]
 				}
-				ft.names[x.Obj] = x.Name
-				e[x.Obj] = binding{kind: bVar, lean: x.Name, typ: tp}
+				ft.names[x.Obj] = kwName(x.Name)
+				e[x.Obj] = binding{kind: bVar, lean: kwName(x.Name), typ: tp}
 			}
 		}
 		return true
@@ -4377,6 +4377,14 @@ func (ft *ftrans) typeOfTypeExpr(x ast.Expr) (tp string) {
 func lf(name string) string {
 	if leanKeywords[name] {
 		return "«" + name + "»"
+	}
+	return name
+}
+
+// kwName: a Go variable name as a Lean binder (a keyword gets an underscore, as local variables do)
+func kwName(name string) string {
+	if leanKeywords[name] {
+		return name + "_"
 	}
 	return name
 }
